@@ -13,7 +13,7 @@ Discharge idioms (enumerated from the tree, see DESIGN):
 """
 import ast
 
-from ..core.expand import u, Expander
+from ..core.expand import u, Expander, call_name
 from ..core.loader import const_value, parents, walk_scope
 from .common import all_nodes, callee, stmt_of, guards_of, calls_in, raises_in
 
@@ -123,7 +123,25 @@ class Taint:
         self.prog, self.f = prog, f
         self.ex = Expander(prog, f)
         self.tainted = {}      # name -> source call
+        self.masked = {}       # name -> the numpy.ma wrapper that hides the sentinel from comparisons
         src = set(sources or [BIN])
+
+        def strip(v):
+            # shape-only wrappers, and numpy.ma wrappers (which keep the -1 in the data but hide it from `== -1` / numpy.any)
+            hidden = None
+            while isinstance(v, ast.Call):
+                if isinstance(v.func, ast.Attribute) and v.func.attr in ('astype', 'copy', 'ravel') and not isinstance(v.func.value, ast.Name):
+                    v = v.func.value
+                    continue
+                if isinstance(v.func, ast.Attribute) and v.func.attr in ('astype', 'copy', 'ravel') and isinstance(v.func.value, ast.Name):
+                    break
+                c = call_name(v) or callee(prog, f, v) or ''
+                if c.startswith('numpy.ma.') and v.args:
+                    hidden = hidden or v
+                    v = v.args[0]
+                    continue
+                break
+            return v, hidden
         for n in all_nodes(f):
             if isinstance(n, ast.Assign) and len(n.targets) == 1 and isinstance(n.targets[0], ast.Name):
                 v = n.value
@@ -131,6 +149,28 @@ class Taint:
                     v = v.func.value
                 if isinstance(v, ast.Call) and callee(prog, f, v) in src:
                     self.tainted[n.targets[0].id] = v
+                    continue
+                # a package function / method that hands back a bin1d_vec result (possibly wrapped)
+                if isinstance(v, ast.Call):
+                    q = callee(prog, f, v)
+                    g = prog.funcs.get(q) if q else None
+                    if g is not None and g is not f and q.startswith('csep.'):
+                        try:
+                            gex = Expander(prog, g)
+                            rets = [r for r in walk_scope(g.node) if isinstance(r, ast.Return) and r.value is not None]
+                        except Exception:
+                            rets = []
+                        for r in rets[:4]:
+                            try:
+                                rv, hidden = strip(gex.expand(r.value))
+                            except Exception:
+                                continue
+                            while isinstance(rv, ast.Call) and isinstance(rv.func, ast.Attribute) and rv.func.attr in ('astype', 'copy', 'ravel'):
+                                rv = rv.func.value
+                            if isinstance(rv, ast.Call) and (call_name(rv) in src or callee(prog, g, rv) in src):
+                                self.tainted[n.targets[0].id] = v
+                                if hidden is not None:
+                                    self.masked[n.targets[0].id] = hidden
 
     # ---- derived masks: variable -> set of tainted names whose sentinel positions it flags (True = bad)
     def bad_masks(self):
@@ -335,6 +375,10 @@ def check_function(ck, f, rule, mode='reject', sources=None, accepted=None, only
             missing = []
             how = []
             for name in sorted(names):
+                if name in T.masked:
+                    # comparisons with a masked array are masked where the array is: `numpy.any(t == -1)` never sees the sentinel
+                    missing.append(name)
+                    continue
                 if dominated_by_raise(st, name):
                     how.append('%s: dominating raise' % name)
                     continue
@@ -354,6 +398,8 @@ def check_function(ck, f, rule, mode='reject', sources=None, accepted=None, only
                     missing = []
             if missing:
                 src = u(T.tainted[missing[0]])[:70]
+                if missing[0] in T.masked:
+                    src += ' (returned through %s: the -1 stays in the data, but every `== -1` test on the masked array is masked there too)' % u(T.masked[missing[0]].func)
                 o.fail('index `%s` comes from `%s`, which is -1 for an out-of-range value; nothing on the path rejects, '
                        'drops or neutralises that sentinel before this %s: numpy wraps -1 to the LAST element, so the '
                        'event is silently counted/looked up in another cell or bin' % ('/'.join(missing), src, kind))
